@@ -158,6 +158,18 @@ func Inputs(tcp bool, thorough bool, rng *rand.Rand) [][]byte {
 			add(append(b, body...))
 		}
 	}
+	// ... and far beyond them: 1024 / 1025 / 2100 kept options (If-Match repeated)
+	for _, k := range []int{1024, 1025, 2100} {
+		body := []byte{0x10}
+		for i := 1; i < k; i++ {
+			body = append(body, 0x00)
+		}
+		if tcp {
+			add(append(encodeTCPHeader(len(body), 0x01, nil), body...))
+		} else {
+			add(append([]byte{0x40, 0x01, 0x12, 0x34}, body...))
+		}
+	}
 	// extended fields at their maxima, option number overflow, reserved nibbles
 	tails := [][]byte{
 		{0xe0, 0xff, 0xff}, {0xe0, 0xfe, 0xf2}, {0xe0, 0xfe, 0xf3}, {0xd0, 0xff}, {0xd0, 0xff, 0xd0, 0xff},
